@@ -868,11 +868,32 @@ func c12RunTree(line string) string {
 			}
 			nd := nodes[x]
 			before := atomic.LoadInt32(&nd.ran)
-			nd.a.Send(c12Msg{0, int(before)})
+			// Send in its own goroutine: a Send that never returns must cost seconds, not the per-case deadline
+			sent := make(chan struct{})
+			go func() {
+				defer close(sent)
+				defer func() { recover() }()
+				nd.a.Send(c12Msg{0, int(before)})
+			}()
+			patience := 2 * time.Second
+			if atomic.LoadInt32(&c12Deviations) >= 2 {
+				patience = 300 * time.Millisecond
+			}
+			select {
+			case <-sent:
+			case <-time.After(patience):
+				atomic.AddInt32(&c12Deviations, 1)
+				out = "send-blocked"
+				outs = append(outs, out)
+				continue
+			}
 			if !nd.shut {
-				deadline := time.Now().Add(2 * time.Second)
+				deadline := time.Now().Add(patience)
 				for atomic.LoadInt32(&nd.ran) == before && time.Now().Before(deadline) {
 					time.Sleep(20 * time.Microsecond)
+				}
+				if atomic.LoadInt32(&nd.ran) == before {
+					atomic.AddInt32(&c12Deviations, 1)
 				}
 			}
 			out = "ran " + strconv.Itoa(int(atomic.LoadInt32(&nd.ran)))
